@@ -12,9 +12,9 @@ COQ_TARGETS = ['theories/DeferredFacts.vo', 'theories/SchedFacts.vo']
 COQ_IMPORTS = 'From Bac Require Import Base Deferred Sched.'
 RULE = ('cases: one case = the whole observable outcome (event trace of fire/call/raise/API-error, heap in pop order with '
         'counters, isScheduled/taskTime of every task, deferredFns) of a history run on the real TaskManager under a virtual '
-        'clock and on the model.  (A) every op sequence of length <= 4 (quick) / <= 5 (thorough) over 2 one-shot tasks and a '
+        'clock and on the model.  (A) every op sequence of length <= 3 (quick) / <= 5 (thorough) over 2 one-shot tasks and a '
         '15-letter alphabet {install at 1|2, install after 1, re-install, suspend, resume} x task + {advance 1, poll, run_once} '
-        'with colliding times, each followed by a flush; random histories of length 200 over 4 tasks (raising / deferring '
+        'with colliding times (quick: all of length <= 3 and a quarter of length 4), each followed by a flush; the same over 3 tasks one of which raises; random histories of length 200 over 4 tasks (raising / deferring '
         'callbacks, Defer, Poll, RunOnce, Run); (B) recurring tasks over interval/offset grids incl. 0.1 s, 0.3 s, 1/3 s with '
         'small and epoch-sized clocks, on-time and late firing, compared by tick (small clocks) or slot index (epoch clocks); '
         '(D) deferred batches of <= 6 with every raising subset, flat and self-deferring, through run_once and run.  '
@@ -660,27 +660,30 @@ def deferred_cases(tier):
 
 def cases(rng, tier):
     out = []
-    # (A) exhaustive short histories over 2 one-shot tasks, packed by last letter
+    # (A) exhaustive short histories over 2 one-shot tasks, packed by last letter: every history of
+    # length <= 3 (quick: + a sample of length 4) / <= 5 (thorough)
+    big = tier == 'thorough'
     cfg2 = [ONE, ONE]
     alpha = alphabet(2)
-    depth = 4 if tier != 'thorough' else 5
-    for L in range(0, depth):
+    for L in range(0, 5 if big else 4):
         for prefix in itertools.product(alpha, repeat=L):
+            if L == 3 and not big and rng.random() >= 0.25:
+                continue
             out.append(mk_packed_case('A-exhaustive', cfg2, prefix, alpha, 'int', 1))
-    # a raising task among colliding ones, exhaustively to length 3 over 3 tasks
+    # a raising task among colliding ones, over 3 tasks
     cfg3 = [ONE, (('one',), True, ()), ONE]
     alpha3 = alphabet(3)
-    for L in range(0, 3 if tier != 'thorough' else 4):
+    for L in range(0, 4 if big else 3):
         for prefix in itertools.product(alpha3, repeat=L):
-            if L == 3 and rng.random() < 0.5 and tier != 'thorough':
+            if L == 2 and not big and rng.random() >= 0.35:
                 continue
             out.append(mk_packed_case('A-exhaustive-raising', cfg3, prefix, alpha3, 'int', 1))
     # (A) random long histories
-    for _ in range(60 if tier != 'thorough' else 1500):
+    for _ in range(40 if tier != 'thorough' else 1500):
         cfg, ops = random_history_A(rng)
         out.append(mk_case('A-random-200', cfg, ops, 'int', 1))
     # (B) recurring
-    want = 300 if tier != 'thorough' else 6000
+    want = 200 if tier != 'thorough' else 6000
     for epoch, mode, kind in ((False, 'tick', 'B-recurring-tick'), (True, 'slot', 'B-recurring-epoch-slot')):
         got = tries = 0
         while got < want and tries < want * 20:
@@ -708,7 +711,7 @@ def cases(rng, tier):
         out.append(mk_case('D-run_once', [], ops + [('runonce',)], 'int', 1))
         out.append(mk_case('D-run', [], ops + [('run',)], 'int', 1))
     # deferred work submitted from (possibly raising) task callbacks that collide in time
-    for _ in range(150 if tier != 'thorough' else 2000):
+    for _ in range(100 if tier != 'thorough' else 2000):
         nextid = [0]
         cfg = [(('one',), rng.random() < 0.3, tuple(gen_dfn_forest(rng, 3, nextid, 0.4))) for _ in range(3)]
         ops = [('install', i, rng.choice([1, 1, 2])) for i in range(3)]
